@@ -1738,7 +1738,12 @@ impl UnifiedCommandExecutor {
                             (0, value.len().saturating_sub(1))
                         };
                         
-                        let slice = &value[start_byte..=end_byte.min(value.len().saturating_sub(1))];
+                        // An empty value or a range whose start lies behind its end counts nothing
+                        let last_byte = end_byte.min(value.len().saturating_sub(1));
+                        if value.is_empty() || start_byte > last_byte {
+                            return Ok(RespFrame::Integer(0));
+                        }
+                        let slice = &value[start_byte..=last_byte];
                         let bit_count = slice.iter().map(|&byte| byte.count_ones() as i64).sum::<i64>();
                         Ok(RespFrame::Integer(bit_count))
                     }
